@@ -36,6 +36,7 @@ def main():
     ap.add_argument('--seed', default='1')
     ap.add_argument('--cases', default=None)
     ap.add_argument('--family', default=None)
+    ap.add_argument('--demo', default=None, help='demonstration program: must exit 0 on /repo and non-zero on the patched copy')
     ns = ap.parse_args()
     scratch = tempfile.mkdtemp(prefix='sfcm_', dir='/var/tmp')
     copy = os.path.join(scratch, 'repo')
@@ -62,6 +63,16 @@ def main():
             tail = out.strip().split('\n')[-1]
             result['tests'] = tail
             print('tests: ' + tail)
+        if ns.demo:
+            for label, root, want_fail in (('patched', copy, True), ('unpatched', '/repo', False)):
+                env = dict(os.environ)
+                env['PYTHONPATH'] = root
+                env['PYTHONWARNINGS'] = 'ignore'
+                rc, out = sh([sys.executable, os.path.abspath(ns.demo)], cwd=scratch, env=env, timeout=900)
+                ok = (rc != 0) == want_fail
+                print('demo on %s tree: exit %d (%s)' % (label, rc, 'as expected' if ok else 'UNEXPECTED'))
+                if not ok:
+                    print(out[-1500:])
         for pid in ns.ids:
             env = dict(os.environ)
             env['VERIF_REPO'] = copy
